@@ -168,6 +168,35 @@ def run(ctx):
                 break
     finally:
         R.reset()
+    # ---- the tokenizer theorems (symbols_tokenize, registered_symbols_tokenize) stated on the real Tokenizer, and the
+    # token-level correspondence that ties `Cdc.tokenize` to it
+    import string
+    import cdcgen
+    from pyimpspec.circuit.tokenizer import Tokenizer, Identifier
+    tail = string.ascii_lowercase + string.digits + "_"
+    registered = sorted(get_elements(private=True))
+    runs = [["L", "La", "Ls"], ["La", "L", "Ls", "L"], ["Ls", "La", "L"]]
+    for _ in range(3000 if ctx.thorough else 500):
+        k = rnd.randint(1, 8)
+        if rnd.random() < 0.5:
+            runs.append([rnd.choice(registered) for _ in range(k)])
+        else:
+            runs.append([rnd.choice(string.ascii_uppercase) + "".join(rnd.choice(tail) for _ in range(rnd.choice([0, 0, 1, 1, 2, 3, 5]))) for _ in range(k)])
+    for run_ in runs:
+        text = "".join(run_)
+        try:
+            toks = Tokenizer().process(text)
+            got = [t.value if type(t) is Identifier else repr(t) for t in toks]
+        except Exception as x:  # noqa
+            got = f"{type(x).__name__}: {x}"
+        ctx.note_case(("symbol-run", text))
+        ctx.count("symbol-run:" + str(len(run_)))
+        if got != run_:
+            ctx.add_failing("symbol-run-not-split-into-its-symbols", {"symbols": run_, "code": text}, observed=got, expected=run_, clause="longest symbol wins, so L, La and Ls stay distinct",
+                            repro="from pyimpspec.circuit.tokenizer import Tokenizer; Tokenizer().process(%r)" % text)
+    corpus = ["".join(r) for r in runs] + cdcgen.mutations(rnd, 100) + cdcgen.random_atoms(rnd, 3000 if ctx.thorough else 600)
+    cdcgen.compare_tokens(ctx, corpus, "tok")
+    ctx.counters["tok:strings"] = len(corpus)
     model = common.run_driver(lines)
     nd = 0
     for i, (l, a, b) in enumerate(zip(lines, real, model)):
